@@ -79,7 +79,7 @@ class C18(Prop):
     thorough_n = 12000
     rule = ('byte streams over {CR, LF, CRLF, empty, multi-byte UTF-8,...} cut at random points (client) and interleaved over '
             '3 sockets (server), run through the real Line component; IRC Message / command constructors over strings '
-            'containing space, colon, CR, LF, NUL, tab, unicode spaces; parsemsg on serialised and random lines. '
+            'containing space, colon, CR, LF, NUL, tab, unicode spaces; parsemsg on serialised and random lines; streams of 1-4 serialised messages cut into reads of arbitrary sizes and received through the real Line component (one line per accepted message). '
             'non-trivial = stream contains a terminator and at least one cut, or message has >= 1 argument')
     trusted_base = ['hand-written models Model/Line.v, Model/Irc.v tied to /repo by this correspondence run',
                     'python oracle in harness/c18.py; re module semantics of \\r?\\n modelled as LF-split + strip one CR']
@@ -90,7 +90,26 @@ class C18(Prop):
         cases = []
         for i in range(n):
             r = rng.random()
-            if r < 0.30:
+            if r < 0.08:
+                # several IRC messages written one after the other, the byte stream cut anywhere, received through Line
+                # (ASCII only so that code points = bytes; a few forbidden characters exercise the rejections)
+                def tk():
+                    return ''.join(rng.choice('ab#x!@:') for _ in range(rng.randint(1, 3)))
+                msgs = []
+                for _ in range(rng.randint(1, 4)):
+                    args = [tk() for _ in range(rng.randint(0, 3))]
+                    if args and rng.random() < 0.5:
+                        args[-1] += ' ' + tk()
+                    if args and rng.random() < 0.12:
+                        j = rng.randrange(len(args))
+                        args[j] += rng.choice(['\r', '\n', '\0', '\r\n', ' '])
+                    msgs.append({'cmd': tk().lstrip(':') or 'x', 'pfx': None if rng.random() < 0.5 else tk(), 'args': args})
+                total = sum(len(m['cmd']) + len(m['pfx'] or '') + sum(len(a) + 2 for a in m['args']) + 4 for m in msgs)
+                sizes = [rng.choice([0, 1, 1, 2, 3, 5, 8]) for _ in range(rng.randint(0, 8))]
+                if rng.random() < 0.15:
+                    sizes = [1] * total
+                cases.append({'k': 'irc_stream', 'msgs': msgs, 'sizes': sizes})
+            elif r < 0.30:
                 data = b''.join(rng.choice(BYTE_ALPHA) for _ in range(rng.randint(0, 14)))
                 mode = rng.random()
                 if mode < 0.2:
@@ -200,6 +219,27 @@ class C18(Prop):
                 app.fire(read(s, bytes(ch)))
                 drain(app)
             return [[[a[0], list(a[1])] for a in app.lines], [list(buffers[s]) for s in (1, 2, 3)]]
+        if k == 'irc_stream':
+            sers = []
+            for m in c['msgs']:
+                try:
+                    kw = {} if m['pfx'] is None else {'prefix': m['pfx']}
+                    sers.append(list(bytes(irc_message.Message(m['cmd'], *m['args'], **kw))))
+                except irc_message.Error:
+                    sers.append(None)
+            data = bytes(b for s_ in sers if s_ is not None for b in s_)
+            chunks = []
+            for n in c['sizes']:
+                chunks.append(data[:n])
+                data = data[n:]
+            chunks.append(data)
+            app = App()
+            ln = Line().register(app)
+            drain(app)
+            for ch in chunks:
+                app.fire(read(ch))
+                drain(app)
+            return {'lines': [list(a[0]) for a in app.lines], 'tail': list(ln.buffer), 'sers': sers}
         if k in ('irc_str', 'irc_ctor'):
             try:
                 enc = c.get('enc', 'utf-8')
@@ -264,8 +304,16 @@ class C18(Prop):
             return 'obs_str %s None %s' % (nlist(c['name']), nlistlist(args))
         if k == 'irc_parse':
             return 'obs_parse %s' % nlist(c['line'])
+        if k == 'irc_stream':
+            ms = '[%s]' % '; '.join('(%s, %s, %s)' % (nlist(m['cmd']), 'None' if m['pfx'] is None else '(Some %s)' % nlist(m['pfx']),
+                                                     nlistlist(m['args'])) for m in c['msgs'])
+            return 'obs_irc_stream %s [%s]' % (ms, '; '.join(natlit(n) for n in c['sizes']))
 
     def obs_for_model(self, c, obs):
+        if c['k'] == 'irc_stream':
+            if isinstance(obs, dict) and '__crash__' in obs:
+                return [-999]
+            return [obs['lines'], obs['tail']]
         if c['k'] in ('irc_str', 'irc_ctor'):
             if isinstance(obs, dict) and '__crash__' in obs:
                 return [-999]
@@ -295,6 +343,13 @@ class C18(Prop):
                 got = [bytes(l) for (t, l) in obs[0] if t == s]
                 if got != exp or bytes(obs[1][idx]) != tail:
                     return 'socket %d: lines %r / tail %r differ from its own stream (%r, %r)' % (s, got, obs[1][idx], exp, tail)
+        if k == 'irc_stream':
+            exp = [bytes(s_[:-2]) for s_ in obs['sers'] if s_ is not None]
+            got = [bytes(l) for l in obs['lines']]
+            if got != exp or obs['tail']:
+                return ('message stream: %d accepted messages %r were received as lines %r with held tail %r'
+                        % (len(exp), exp, got, bytes(obs['tail'])))
+            return None
         if k in ('irc_str', 'irc_ctor'):
             s = obs['str']
             if s is None:
@@ -321,6 +376,8 @@ class C18(Prop):
             return len(c['evs']) > 2
         if k in ('irc_str', 'irc_ctor'):
             return len(c['args']) >= 1
+        if k == 'irc_stream':
+            return len(c['msgs']) >= 2 and len(c['sizes']) >= 1
         return len(c['line']) > 2
 
 
